@@ -827,8 +827,19 @@ class Evaluator:
                     items.append(self.expr(x, fr))
             return ({ast.List: "list", ast.Tuple: "tuple", ast.Set: "set"}[type(e)], tuple(items))
         if isinstance(e, ast.Dict):
-            return ("dict", tuple((self.expr(k, fr) if k is not None else ("star",), self.expr(v, fr))
-                                  for k, v in zip(e.keys, e.values)))
+            items = []
+            for k, v in zip(e.keys, e.values):
+                val = self.expr(v, fr)
+                if k is None:
+                    # ``**other``: spliced in place when the entries of ``other`` are known (a display, or a comprehension over one)
+                    known = expand_dict(val)
+                    if known is not None:
+                        items.extend(known)
+                        continue
+                    items.append((("star",), val))
+                    continue
+                items.append((self.expr(k, fr), val))
+            return ("dict", tuple(items))
         if isinstance(e, ast.Subscript):
             base = self.expr(e.value, fr)
             if isinstance(e.slice, ast.Slice):
@@ -964,6 +975,10 @@ class Evaluator:
         if op in ("in", "notin") and b[0] in ("list", "tuple", "set") and not any(x[0] == "star" for x in b[1]):
             c = t_or(*[t_cmp("==", a, x) for x in b[1]])
             return c if op == "in" else t_not(c)
+        if op in ("is", "isnot", "==", "!=") and NONE in (a, b):
+            other = b if a == NONE else a
+            if _never_none(other):
+                return FALSE if op in ("is", "==") else TRUE
         return t_cmp(op, a, b)
 
     # -- attribute access ---------------------------------------------------------------
@@ -1204,6 +1219,41 @@ class Evaluator:
             return ("call", ("cls", c.name), tuple(args), tuple(kwargs))
         bound = list(zip(names, args)) + [(k, v) for k, v in kwargs]
         return ("new", c.name, tuple(sorted(bound)))
+
+
+def expand_dict(t: Term) -> Optional[List[Tuple[Term, Term]]]:
+    """entries of a dict term when they are statically known: a display, or ``{k(e): v(e) for e in <known entries>.items()}``"""
+    while t[0] == "var" and len(t) == 4:
+        t = t[3]
+    if t[0] == "dict":
+        if any(k == ("star",) for k, _ in t[1]):
+            return None
+        return list(t[1])
+    if t[0] == "dictcomp" and len(t[3]) == 1 and not t[3][0][1]:
+        it = t[3][0][0]
+        if it[0] == "items":
+            src = expand_dict(it[1])
+            if src is None:
+                return None
+            bs = subterms((t[1], t[2]), lambda x: x[0] == "bound" and isinstance(x[1], int) and x[3] == show(it))
+            if len(bs) != 1:
+                return None
+            b = bs[0]
+            return [(subst(t[1], {("item", b, 0): k, ("item", b, 1): v}), subst(t[2], {("item", b, 0): k, ("item", b, 1): v})) for k, v in src]
+    return None
+
+
+def _never_none(t: Term) -> bool:
+    """a value that was built right here (display, comprehension, constructor result, number): comparing it with None has one answer"""
+    while t[0] == "var" and len(t) == 4:
+        t = t[3]
+    if t[0] in ("list", "tuple", "dict", "set", "comp", "dictcomp", "concat", "new", "fstr", "lambda"):
+        return True
+    if t[0] == "lin" and not t[1]:
+        return True
+    if t[0] == "const" and t[1] is not None:
+        return True
+    return False
 
 
 def _listy(t: Term) -> bool:
